@@ -20,18 +20,18 @@ type propMeta struct {
 var meta = map[string]propMeta{}
 
 var realStub = map[string]string{
-	"lexer/parser/directives (parser.go)":                       "real, through eval.Compile",
-	"optimizer, size check, program builder, event nodes":        "real, through eval.Compile",
-	"evaluator Eval/TryEval/EvalBool/TryEvalBool/eval.Eval":      "real",
-	"built-in operator table":                                    "real",
-	"Dump/DumpTable":                                             "real (Dump text is re-read by the oracle's own reader)",
+	"lexer/parser/directives (parser.go)":                   "real, through eval.Compile",
+	"optimizer, size check, program builder, event nodes":   "real, through eval.Compile",
+	"evaluator Eval/TryEval/EvalBool/TryEvalBool/eval.Eval": "real",
+	"built-in operator table":                               "real",
+	"Dump/DumpTable":                                        "real (Dump text is re-read by the oracle's own reader)",
 	"Config API (NewConfig, CopyConfig, ExtendConf, RegVarAndOp, GetOrRegisterKey, RegisterOperator)": "real",
-	"NewCtxFromVars, SliceVarFetcher, MapVarFetcher":             "real where the property is about them (C11, C01 one-shot), otherwise replaced",
-	"remote variable store + per-request cache (VariableFetcher)": "STUB: SimFetcher (values, availability, failures, call log)",
-	"user operators":                                             "STUB: SimOps (pure typed hash, failing, clock-reading, stateless-declared)",
-	"event consumer on Expr.EventChan":                           "STUB: the simulator's scheduler over a real Go channel",
-	"caller goroutines":                                          "real goroutines, released one at a time by the simulator",
-	"clock":                                                      "STUB: logical clock (the library itself never reads a clock)",
+	"NewCtxFromVars, SliceVarFetcher, MapVarFetcher":                                                  "real where the property is about them (C11, C01 one-shot), otherwise replaced",
+	"remote variable store + per-request cache (VariableFetcher)":                                     "STUB: SimFetcher (values, availability, failures, call log)",
+	"user operators":                   "STUB: SimOps (pure typed hash, failing, clock-reading, stateless-declared)",
+	"event consumer on Expr.EventChan": "STUB: the simulator's scheduler over a real Go channel",
+	"caller goroutines":                "real goroutines, released one at a time by the simulator",
+	"clock":                            "STUB: logical clock (the library itself never reads a clock)",
 }
 
 func writeEvidence(prop, tier string, base uint64, cfg tierCfg, workers int, agg *Aggregate, det DetReport, violations int, known map[string]int, wall float64) {
@@ -44,30 +44,30 @@ func writeEvidence(prop, tier string, base uint64, cfg tierCfg, workers int, agg
 		samples = []interface{}{"no sample recorded"}
 	}
 	cov := map[string]interface{}{
-		"evaluations":         agg.Stats.Evals,
-		"distinct_nontrivial": len(agg.sets[1]),
-		"rule":                m.Rule,
-		"samples":             samples,
-		"exhaustive":          false,
-		"simulated_runs":      agg.Stats.Worlds,
-		"distinct_worlds":     len(agg.sets[0]),
-		"distinct_paths":      len(agg.sets[2]),
-		"distinct_schedules":  len(agg.sets[3]),
+		"evaluations":                       agg.Stats.Evals,
+		"distinct_nontrivial":               len(agg.sets[1]),
+		"rule":                              m.Rule,
+		"samples":                           samples,
+		"exhaustive":                        false,
+		"simulated_runs":                    agg.Stats.Worlds,
+		"distinct_worlds":                   len(agg.sets[0]),
+		"distinct_paths":                    len(agg.sets[2]),
+		"distinct_schedules":                len(agg.sets[3]),
 		"comparisons_skipped_out_of_domain": agg.Stats.Skipped,
-		"logical_steps":       agg.Stats.Steps,
-		"fault_kinds_fired":   agg.Stats.Faults,
-		"fault_kinds_available": m.FaultKinds,
+		"logical_steps":                     agg.Stats.Steps,
+		"fault_kinds_fired":                 agg.Stats.Faults,
+		"fault_kinds_available":             m.FaultKinds,
 		"fault_kinds_not_applicable_to_this_code_base": []string{"message loss/duplication/reordering", "partitions", "disk errors, torn/lost writes, full disk", "clock skew between nodes", "failing allocations"},
-		"reach_probes":        agg.Stats.Probes,
-		"run_budget":          cfg.Runs,
-		"run_budget_completed": agg.Completed,
-		"workers":             workers,
-		"runs_per_hour":       rate(agg.Stats.Worlds, wall),
-		"seeds_per_hour":      rate(agg.Stats.Worlds, wall),
+		"reach_probes":          agg.Stats.Probes,
+		"run_budget":            cfg.Runs,
+		"run_budget_completed":  agg.Completed,
+		"workers":               workers,
+		"runs_per_hour":         rate(agg.Stats.Worlds, wall),
+		"seeds_per_hour":        rate(agg.Stats.Worlds, wall),
 		"determinism_self_test": det,
-		"engines":             m.Engines,
-		"components":          realStub,
-		"known_findings_hit":  known,
+		"engines":               m.Engines,
+		"components":            realStub,
+		"known_findings_hit":    known,
 	}
 	if m.Clock {
 		cov["simulated_clock_ticks"] = agg.Stats.Ticks
